@@ -7,7 +7,10 @@ package classifier
 import (
 	"bytes"
 	"fmt"
+	"io/ioutil"
 	"os"
+	"path/filepath"
+	"sort"
 	"strings"
 	"testing"
 )
@@ -367,6 +370,17 @@ func (vt *v2T) scenC07() {
 		a, b := docs[vt.rng.Intn(len(docs))], docs[vt.rng.Intn(len(docs))]
 		xs = append(xs, append(append(v2EnsureNL(vt.editWords(c, a.Data, 0.05)), vt.oovBlock(c, 2)...), vt.editWords(c, b.Data, 0.05)...))
 		labels = append(labels, "concat/"+a.Key+"+"+b.Key)
+	}
+	// the recorded instances of the open finding C07-negative-offset-clamp are always part of the run
+	if dir := os.Getenv("VERIF_CASES"); dir != "" {
+		files, _ := filepath.Glob(filepath.Join(dir, "C07-*.txt"))
+		sort.Strings(files)
+		for _, f := range files {
+			if b, err := ioutil.ReadFile(f); err == nil {
+				xs = append([][]byte{b}, xs...)
+				labels = append([]string{"case/" + filepath.Base(f)}, labels...)
+			}
+		}
 	}
 	for xi, x := range xs {
 		x = v2EnsureNL(x)
